@@ -1,6 +1,6 @@
 """C08 — exact diag / trace return the true (off-)diagonal and trace.
 
-Three streams (all randomness from random.Random(ctx.seed ...)):
+Streams A-D, described below (all randomness from random.Random(ctx.seed ...)):
   A  random square operator trees of extent 1..8 (all listed kinds, nested), every k in [-n, n] (plus
      k = +-(n+1)), alg in {omitted, Auto(), Exact()}, diag and trace, real / code model / spec compared EXACTLY;
   B  block-boundary stream on the REAL code at n in {99,100,101,130,199,200,201,250} (both sides of the probing
@@ -19,13 +19,19 @@ Three streams (all randomness from random.Random(ctx.seed ...)):
   E  block-constant stream on the REAL code: n in {99,100,101,199,200,201,250} x k in a sample of {-n+1..n-1} that
      always contains 0, +-1, +-99, +-100, +-101, +-(n-1) (thorough: every k), on Product / no_dispatch operators of
      all four dtypes (mixed within one operator), integer-valued payloads; compared EXACTLY with np.diag(to_dense, k)
-     and with an independent int64 evaluation of the expression.
+     and with an independent int64 evaluation of the expression;
+  H  the hutchReach boundary, SELECTION ONLY: lazy operators of extent 316227 / 316228 (numel on both sides of 1e11; nothing
+     n x n is allocated), alone and as members of Sum / Kronecker / KronSum / BlockDiag (multiplicity 0, 0 x 0 factor) /
+     annotated trees; the two estimators are replaced by recording stubs (they cannot be run at that size) and the
+     estimator the real rule recursion hands each generic node to is compared with Lean's Op.hutchReach and with the
+     input predicate hutch_reach.  No value is compared in stream H.
 
 Refusals (streams A, B-lean): an exception of the real call is an observation.  `refused-ok` is a THREE-WAY agreement on the
 exception CLASS: real raises X, the Lean code model answers error:X, and predicted_refusal — the rules of diag_trace.py read
 off the source as a decidable predicate on the input — gives X (with the reason, counted in the evidence).  The model's escape
 value `unmodelled:hutch` is accepted only under the input predicate hutch_reach (numel >= 1e11 at a generic node, alg != Exact;
-theorem C08_refusals_are_exceptions says it cannot occur otherwise); it is never generated.  The one recorded clause
+theorem C08_refusals_are_exceptions says it cannot occur otherwise); streams A-E never generate it.  Stream H observes the
+predicate on the real rule recursion (selection only: see stream H above).  The one recorded clause
 (`bdiag-zero-multiplicity`) is attributed per call by the input predicate rule_zero_mult and excuses the dtype observation only.
 The trees of the Lean witness theorems (C08_rules_witness, C08_trace_witness, C08_probing_witness) are corpus lines (`witness`):
 the real code must return the value stated in the theorem.
@@ -1306,6 +1312,126 @@ def stream_d(ctx, eng):
     return report
 
 
+# ------------------------------------------------------------------------------------------ stream H: the hutchReach boundary
+HUTCH_N = 316228          # 316228**2 = 100000147984 >= 1e11 > 316227**2 = 99999515529
+
+
+def hutch_ops():
+    """lazy operators of huge extent (nothing of size n x n is ever allocated: Identity / ScalarMul behind cola.no_dispatch,
+    Sliced / Transpose / Product of them, and the structured kinds whose rules recurse into such members), on both sides of
+    numel = 1e11, with the multiplicity-0 and 0 x 0-factor cases (the rules visit EVERY member, also one that contributes nothing)"""
+    N = HUTCH_N
+    g = lambda dt, n: ["generic", ["eye", dt, n]]          # noqa: E731
+    return [
+        g("f64", N), g("f64", N - 1), g("c64", N + 5),
+        ["generic", ["scalar", "f64", 3, N]],
+        ["kron", g("f32", N), ["dense", "f64", 2, 2, [[1, 2], [3, 4]]]],
+        ["kron", ["dense", "f64", 2, 2, [[1, 2], [3, 4]]], g("f64", N - 1)],
+        ["bdiag", [g("f64", N), ["diag", "f64", [1, 2]]], [0, 1]],              # multiplicity 0: diag of the member is still computed
+        ["bdiag", [["diag", "f64", [1, 2]], g("f64", N)], [2, 1]],
+        ["bdiag", [g("f64", N - 1), ["diag", "f64", [1, 2]]], [0, 1]],
+        ["kron", ["dense", "f64", 0, 0, []], g("f64", N)],                      # 0 x 0 factor: the product is empty, the member is still visited
+        ["sum", ["eye", "f64", N], ["generic", ["scalar", "f64", 3, N]]],
+        ["kronsum", g("f64", N), ["diag", "f64", [1, 2]]],
+        ["ann", "SelfAdjoint", g("f64", N)],
+        ["kron", g("f64", 1000), g("f64", 1000)],                               # numel of the PRODUCT 1e12, of each member 1e6: no reach
+        ["slice", ["eye", "f64", N], {"s": [0, N, 1]}, {"s": [0, N, 1]}],
+        ["T", g("f64", N)],
+        ["prod", g("f64", N), g("f64", N)],
+        ["eye", "f64", N], ["scalar", "f64", 2, N],                             # huge, but never handed to the generic rule
+        ["kron", ["eye", "f64", N], ["eye", "f64", 2]],
+        ["sum", ["kron", g("f64", N), ["eye", "f64", 2]], ["eye", "f64", 2 * N]],   # nested: reach below two rule nodes
+    ]
+
+
+def generic_nodes(e):
+    """the operators the rule recursion of diag (k = 0) / trace hands to the generic LinearOperator rule, in visiting order
+    (read off cola/linalg/trace/diag_trace.py: members left to right, every member whatever its multiplicity / extent)"""
+    t = e[0]
+    if t in ("dense", "tri", "eye", "diag", "scalar"):
+        return []
+    if t in ("sum", "kron", "kronsum", "bdiag", "ann"):
+        return [x for m in rule_path_kids(e) for x in generic_nodes(m)]
+    return [tuple(gen.shape_of(e))]
+
+
+def stream_h(ctx, eng):
+    """the hypothesis `alg = Exact() or A.hutchReach = false` observed on the REAL rule recursion.  The estimators themselves
+    cannot be run at numel >= 1e11 (Hutchinson: ~25 products with 316228 x 100 probes, stochastic result; exact_diag: 3163
+    blocks), so cola.linalg.trace.diagonal_estimation.{hutchinson_diag_estimate, exact_diag} are replaced by RECORDING STUBS for
+    the duration of this stream: what is compared is the SELECTION -- which estimator the real rules hand which node to --
+    three ways: real (recorded calls) / Lean `Op.hutchReach` (driver call `reach`) / the input predicate hutch_reach +
+    generic_nodes read off the source.  No value is compared in this stream."""
+    import cola
+    from cola.linalg.algorithm_base import Auto
+    from cola.linalg.trace import diagonal_estimation as DE
+    from cola.linalg.trace.diagonal_estimation import Exact
+    ops = hutch_ops()
+    res = oracle.run_driver([{"id": i, "call": "reach", "op": e} for i, e in enumerate(ops)], driver=DRIVER, nproc=min(16, len(ops)))
+    calls = []
+
+    def hutch_stub(A, k=0, **kw):
+        calls.append(("hutch", tuple(A.shape)))
+        return np.zeros((A.shape[0] - abs(k),), dtype=A.dtype), {}
+
+    def exact_stub(A, k, bs):
+        calls.append(("exact", tuple(A.shape)))
+        return np.zeros((A.shape[0] - abs(k),), dtype=A.dtype)
+
+    saved = (DE.hutchinson_diag_estimate, DE.exact_diag)
+    cov = collections.Counter()
+    B = build.Builder()
+    try:
+        DE.hutchinson_diag_estimate, DE.exact_diag = hutch_stub, exact_stub
+        for i, e in enumerate(ops):
+            a = res.get(i, {"error": "no answer from driver"})
+            reach_py = hutch_reach(e)
+            nodes = generic_nodes(e)
+            for alg in ("omitted", "auto", "exact"):
+                for call in ("diag", "trace"):
+                    case = {"op": e, "call": call, "k": 0, "alg": alg, "stream": "hutch-reach"}
+                    eng.stats["evaluations"] += 1
+                    del calls[:]
+                    err = None
+                    try:
+                        A = B.build(e)
+                        args = () if alg == "omitted" else (Auto() if alg == "auto" else Exact(),)
+                        if call == "diag":
+                            cola.linalg.diag(A, 0, *args)
+                        else:
+                            cola.linalg.trace(A, *args)
+                    except Exception as ex:  # noqa: BLE001
+                        err = f"{treecheck.err_class(ex)}: {str(ex)[:120]}"
+                    want = [("exact" if alg == "exact" or r * c < HUTCH_NUMEL else "hutch", (r, c)) for r, c in nodes]
+                    real_reach = any(w == "hutch" for w, _ in calls)
+                    bad = None
+                    if "error" in a:
+                        eng.stats["driver-error"] += 1
+                        bad = "driver: " + str(a["error"])[:200]
+                    elif err is not None:
+                        bad = "the real call raised " + err
+                    elif bool(a["hutch"]) != reach_py:
+                        bad = f"Lean Op.hutchReach = {a['hutch']}, input predicate hutch_reach = {reach_py}"
+                    elif real_reach != (reach_py and alg != "exact"):
+                        bad = (f"the real rules {'handed' if real_reach else 'did not hand'} a node to the Hutchinson estimator "
+                               f"(recorded: {calls}); predicate hutchReach = {reach_py}, alg = {alg}")
+                    elif list(calls) != want:
+                        bad = f"estimator calls of the real rules {calls} differ from the rules read off the source {want}"
+                    if bad:
+                        eng.stats["stale-model"] += 1
+                        common.violation(ctx, {"stream": "hutch-reach (selection only, estimators stubbed)", "case": case, "detail": bad},
+                                         no_input=True)
+                    else:
+                        eng.stats["hutch-reach-ok"] += 1
+                        cov["reach, Auto/omitted: Hutchinson selected" if real_reach else
+                            "reach, Exact(): exact selected" if reach_py else "no reach: exact / structured rules only"] += 1
+                        eng.distinct.add(common.canon([e, call, 0, alg]))
+    finally:
+        DE.hutchinson_diag_estimate, DE.exact_diag = saved
+    return {"operators": len(ops), "agreements": dict(cov),
+            "boundary": f"n = {HUTCH_N} (n^2 >= 1e11) and n = {HUTCH_N - 1} (n^2 < 1e11)"}
+
+
 # ------------------------------------------------------------------------------------------ entry
 def run(ctx):
     import shim  # noqa: F401
@@ -1361,6 +1487,8 @@ def run(ctx):
         timings["D"] = round(ctx.wall(), 1)
         stream_e(ctx, eng, rng)
         timings["E"] = round(ctx.wall(), 1)
+        eng.hutch_cov = stream_h(ctx, eng)
+        timings["H"] = round(ctx.wall(), 1)
     if gate_err is not None and not ctx.violations:
         common.violation(ctx, {"broken": f"Lean gate of {MODULE}", "detail": gate_err[-3000:]}, no_input=True)
     cov = {
@@ -1380,6 +1508,7 @@ def run(ctx):
         "rules_selected_in_real_calls": dict(eng.rule_hist),
         "live_rules": eng.live_rules,
         "block_constant_stream": eng.block_cov,
+        "hutch_reach_stream": getattr(eng, "hutch_cov", None),
         "samples": eng.samples,
         "provisional_known": {},
         "refusals": {
@@ -1414,7 +1543,12 @@ def run(ctx):
         "= the recorded clause bdiag-zero-multiplicity (C08_dtype_clause_needed shows it cannot be dropped)",
         "hypothesis of C08_refusals_are_exceptions / C08_trace_refusals_are_exceptions / C08_rule_agrees_with_probing_strict: `alg = Exact() or "
         "A.hutchReach = false` (no operator with numel >= 1e11 reaches the generic rule); C08_escape_witness shows it cannot be dropped. Beyond it "
-        "the model answers 'unmodelled:hutch' (Auto() returns a Hutchinson estimate: outside C08); never generated, so 'unmodelled-ok' is 0",
+        "the model answers 'unmodelled:hutch' (Auto() returns a Hutchinson estimate: outside C08).  Streams A-E never generate it ('unmodelled-ok' is 0 there); "
+        "stream H observes the hypothesis on the REAL rule recursion at both sides of numel = 1e11 (lazy Identity / ScalarMul operators of extent 316227 / 316228 "
+        "behind no_dispatch, Sliced, Transpose, Product, and Sum / Kronecker / KronSum / BlockDiag / annotated trees over them, incl. a multiplicity-0 block and a "
+        "0 x 0 Kronecker factor): SELECTION ONLY -- the estimators hutchinson_diag_estimate / exact_diag are replaced by recording stubs because neither can be run "
+        "at that size; real estimator calls vs Lean Op.hutchReach (driver call `reach`) vs the input predicate; the VALUE of the code model ('unmodelled:hutch') is "
+        "not requested there (the driver's header walks index ranges), it is tied to Op.hutchReach by C08_refusals_are_exceptions / C08_escape_witness",
         "the block size 100 of exact_diag is a universally quantified parameter bs0 > 0 of the theorems; the real loop is exercised at the true sizes "
         "99..250 against numpy and against the Lean model with bs0 = 100",
         "the code model of `A @ chunk` inside the probing loop is C01's Op.mm (values; Op.mm_eq needs wf, dupSlice=false, HermOK) and C01's Op.mmDtype "
